@@ -7,23 +7,23 @@ package logger
 // Printing writes to the configured streams only (trusted frames: the colour functions are dynamic calls).
 //@ func (*Logger).Outf
 //@   trusted
-//@   modifies bytes.*, github.com/go-task/task/v3/internal/output.*
+//@   modifies bytes.*
 //@ func (*Logger).FOutf
 //@   trusted
-//@   modifies bytes.*, github.com/go-task/task/v3/internal/output.*
+//@   modifies bytes.*
 //@ func (*Logger).VerboseOutf
 //@   trusted
-//@   modifies bytes.*, github.com/go-task/task/v3/internal/output.*
+//@   modifies bytes.*
 //@ func (*Logger).Errf
 //@   trusted
-//@   modifies bytes.*, github.com/go-task/task/v3/internal/output.*
+//@   modifies bytes.*
 //@ func (*Logger).VerboseErrf
 //@   trusted
-//@   modifies bytes.*, github.com/go-task/task/v3/internal/output.*
+//@   modifies bytes.*
 //@ func (*Logger).Warnf
 //@   trusted
-//@   modifies bytes.*, github.com/go-task/task/v3/internal/output.*
+//@   modifies bytes.*
 //@ func (*Logger).Prompt
 //@   trusted
 //@   blocks
-//@   modifies bytes.*, github.com/go-task/task/v3/internal/output.*, bufio.*
+//@   modifies bytes.*, bufio.*
